@@ -1016,4 +1016,5 @@ func TestVerifC19(t *testing.T) {
 	c19Async(t, o, rng)
 	c19Dir(t, o, rng)
 	c19Issue(t, o, rng)
+	c19Stress(t, o)
 }
